@@ -156,6 +156,69 @@ def check_err_origin(rep, crate, cfgname):
     return n
 
 
+def _selection_table(kind, lam2):
+    """which item a pairwise combinator keeps, as a table over (left is Ok, right is Ok) -> value kept.
+
+    Iterator::max_by(cmp) keeps the left (accumulated) item iff cmp says Greater; Iterator::reduce(f) keeps f(left, right).
+    Both are written over the same vocabulary: ok(payload) / err(error) of the left ($0) and right ($1) item."""
+    lam2 = T.alpha(lam2)
+    body = lam2[2]
+    a, b = T.bv(0), T.bv(1)
+    okc = {0: ('matches', a, 'Ok'), 1: ('matches', b, 'Ok')}
+    pay = {0: T.root(('case', a, 'Ok', 0)), 1: T.root(('case', b, 'Ok', 0))}
+    err = {0: ('case', a, 'Err', 0), 1: ('case', b, 'Err', 0)}
+    G = ('unitctor', 'std::cmp::Ordering::Greater')
+    L = ('unitctor', 'std::cmp::Ordering::Less')
+    E = ('unitctor', 'std::cmp::Ordering::Equal')
+
+    def item(i, facts):
+        return ('ok', pay[i]) if okc[i] in facts else ('err', err[i])
+
+    def leaf(t, facts):
+        t = T.unroot(t)
+        if kind == 'max_by':
+            if t == G:
+                return item(0, facts)
+            if t in (L, E):
+                return item(1, facts)
+            if isinstance(t, tuple) and t and t[0] == 'call' and t[1] == 'std::cmp::Ord::cmp' and len(t[2]) == 2:
+                x, y = T.as_lin(t[2][0]), T.as_lin(t[2][1])
+                c = T.cmp('Gt', x, y)
+                l, r = item(0, facts), item(1, facts)
+                if l[0] == 'ok' and r[0] == 'ok':
+                    return ('ok', T.ite(c, l[1], r[1]))
+                return ('ite', c, l, r)
+            return ('?', t)
+        if t == a:
+            return item(0, facts)
+        if t == b:
+            return item(1, facts)
+        return t
+
+    def walk(t, facts):
+        u = T.unroot(t)
+        if isinstance(u, tuple) and u and u[0] == 'ite':
+            c = T.simplify_under(u[1], facts)
+            if c == T.TRUE:
+                return walk(u[2], facts)
+            if c == T.FALSE:
+                return walk(u[3], facts)
+            x, y = walk(u[2], facts + [c]), walk(u[3], facts + [T.tnot(c)])
+            if x[0] == 'ok' and y[0] == 'ok':
+                return ('ok', T.ite(c, x[1], y[1]))
+            return ('ite', c, x, y)
+        return leaf(t, facts)
+
+    table = {}
+    for la in (True, False):
+        for rb in (True, False):
+            facts = [okc[0] if la else T.tnot(okc[0]), okc[1] if rb else T.tnot(okc[1])]
+            table[(la, rb)] = T.canon(walk(body, facts), minmax=True)
+    want = {(True, True): T.canon(('ok', T.tmax(pay[0], pay[1])), minmax=True),
+            (True, False): T.canon(('err', err[1])), (False, True): T.canon(('err', err[0])), (False, False): T.canon(('err', err[0]))}
+    return table, want
+
+
 def check_max_response_time(rep, crate):
     body = crate.body(MAXRT)
     if body is None:
@@ -164,14 +227,10 @@ def check_max_response_time(rep, crate):
     where = loc(body.raw)
     ev = Evaluator(crate)
     top = T.unroot(ev.eval_entry(body))
-    a, b = T.bv(0), T.bv(1)
-    G = ('unitctor', 'std::cmp::Ordering::Greater')
-    L = ('unitctor', 'std::cmp::Ordering::Less')
-    cmpab = T.root(T.call('std::cmp::Ord::cmp', ('unwrap', a), ('unwrap', b)))
-    want_cmp = T.ite(('is_err', a), G, T.ite(('is_err', b), L, cmpab))
-    ok_shape = isinstance(top, tuple) and top[0] == 'optor' and isinstance(T.unroot(top[1]), tuple) and T.unroot(top[1])[0] == 'max_by'
+    ok_shape = isinstance(top, tuple) and top[0] == 'optor' and isinstance(T.unroot(top[1]), tuple) and T.unroot(top[1])[0] in ('max_by', 'reduce')
     if not ok_shape:
-        rep.bad('FP-MAX', 'FP-MAX:shape', where, f'max_response_time computes {T.show(top)[:200]}', 'max_by(comparator).unwrap_or(Ok(0)) over all items', fn=MAXRT)
+        rep.bad('FP-MAX', 'FP-MAX:shape', where, f'max_response_time computes {T.show(top)[:200]}',
+                'a pairwise selection (max_by / reduce) over all items, Ok(0) if there are none', fn=MAXRT)
         return
     mb = T.unroot(top[1])
     dflt = top[2]
@@ -180,26 +239,29 @@ def check_max_response_time(rep, crate):
     else:
         rep.bad('FP-MAX', 'FP-MAX:empty', where, f'an empty sequence yields {T.show(dflt)}', 'Ok(0)', fn=MAXRT)
     if mb[1] == ('elems', p(0)):
-        rep.ok('FP-MAX', 'FP-MAX:all', where, 'the comparator sees every item of the sequence (no adaptor in between)', fn=MAXRT)
+        rep.ok('FP-MAX', 'FP-MAX:all', where, 'the selection sees every item of the sequence (no adaptor in between)', fn=MAXRT)
     else:
         rep.bad('FP-MAX', 'FP-MAX:all', where, f'maximum is taken over {T.show(mb[1])}', 'the whole parameter sequence', fn=MAXRT)
-    got = T.alpha(mb[2])[2]
-    # Iterator::max_by keeps the *left* (earlier, accumulated) item iff the comparator says Greater
-    if got == want_cmp:
+    table, want = _selection_table(mb[0], mb[2])
+    names = {(True, True): 'Ok,Ok', (True, False): 'Ok,Err', (False, True): 'Err,Ok', (False, False): 'Err,Err'}
+    wrong = [k for k in want if table[k] != want[k]]
+    if not wrong:
         rep.ok('FP-MAX', 'FP-MAX:cmp', where,
-               'comparator: Greater if the left item is Err; else Less if the right is Err; else Ord::cmp of the payloads '
-               '(with max_by keeping the left item on Greater: the first error wins, otherwise the maximum)', fn=MAXRT)
+               f'{mb[0]}: of an accumulated (left) and a next (right) item the one kept is -- Err,_: the left error; Ok,Err: the right '
+               'error; Ok,Ok: Ok(max of the payloads): the first error wins, otherwise the maximum', fn=MAXRT)
     else:
-        rep.bad('FP-MAX', 'FP-MAX:cmp', where, f'comparator is {T.show(got)}', T.show(want_cmp), fn=MAXRT,
-                why='with Iterator::max_by this decides which error / which value is reported')
-    # the unwraps are dominated by !is_err
+        rep.bad('FP-MAX', 'FP-MAX:cmp', where,
+                '; '.join(f'({names[k]}) keeps {T.show(table[k])[:120]}' for k in wrong),
+                '; '.join(f'({names[k]}) keeps {T.show(want[k])}' for k in wrong), fn=MAXRT,
+                why='this decides which error / which value is reported')
+    # the unwraps are dominated by an Ok test
     for e in ev.events:
         if e['kind'] == 'unwrap':
             arg = T.unroot(e['arg'])
-            if T.tnot(('is_err', arg)) in e['pc']:
-                rep.ok('FP-MAX', f'FP-MAX:unwrap:{T.show(arg)}', loc(e['node']), f'unwrap of {T.show(arg)} is dominated by !is_err', fn=MAXRT)
+            if ('matches', arg, 'Ok') in e['pc']:
+                rep.ok('FP-MAX', f'FP-MAX:unwrap:{T.show(arg)}', loc(e['node']), f'unwrap of {T.show(arg)} is dominated by an Ok test', fn=MAXRT)
             else:
-                rep.bad('FP-MAX', f'FP-MAX:unwrap:{T.show(arg)}', loc(e['node']), f'unwrap of {T.show(arg)} is not dominated by an is_err test', fn=MAXRT)
+                rep.bad('FP-MAX', f'FP-MAX:unwrap:{T.show(arg)}', loc(e['node']), f'unwrap of {T.show(arg)} is not dominated by an Ok test', fn=MAXRT)
 
 
 def check_brute_sibling(rep, crate):
@@ -245,13 +307,14 @@ def check_default_service_time(rep, crate):
         return
     where = loc(body.raw)
     ev = Evaluator(crate)
-    ev.eval_entry(body)
+    top = ev.eval_entry(body)
     try:
         l, nid, inner = loop_summary(ev, body, ('Loop', 'While'))
     except AnchorMissing as ex:
         rep.bad('ANCHOR', 'ANCHOR:service_time:loop', where, ex.what, fn=ST)
         return
-    assigns = [e for e in inner if e['kind'] == 'assign' and not e['fields']]
+    # a variable that only caches provided_service(t) for the next test (the `primed` form) is not an iteration variable
+    assigns = [e for e in inner if e['kind'] == 'assign' and not e['fields'] and not e.get('derived')]
     if len({a['local'] for a in assigns}) != 1:
         rep.bad('ANCHOR', 'ANCHOR:service_time:var', where, 'cannot identify the iteration variable', fn=ST)
         return
@@ -266,6 +329,9 @@ def check_default_service_time(rep, crate):
         rep.bad('ST-INIT', 'ST-INIT:default', where, f'starts at t = {T.show(init)}', 't = demand', fn=ST,
                 why='a larger start can overshoot the least t; a smaller one only costs iterations')
     rets = [e for e in inner if e['kind'] == 'ret']
+    if not (isinstance(T.unroot(top), tuple) and T.unroot(top) and T.unroot(top)[0] == 'loopval'):
+        # `while supply < demand {..}; t`: leaving the loop is returning the value that follows it
+        rets += [dict(e, value=top) for e in inner if e['kind'] == 'break']
     if len(rets) == 1 and rets[0]['value'] == Ht and rets[0]['pc'] == (T.cmp('Ge', sup, demand),):
         rep.ok('ST-RET', 'ST-RET:default', where, 'returns t exactly when provided_service(t) >= demand', fn=ST)
     else:
